@@ -328,3 +328,40 @@ func H_C10_index_with_trailing_characters() {
 	verifAssert(gp, "GetTF of a path with a non-numeric index segment panics")
 	verifReach("end")
 }
+
+// long lists: three-digit decimal indices against a list of 600 elements (also in a non-final segment)
+func H_C10_long_list_indices() {
+	x := nondetInt()
+	inner := NewObject("k", x)
+	l := NewListOf(inner, 600)
+	hi := []string{"10", "25", "51", "59", "60", "99"}[nondetIntRange(0, 5)] // 10x, 25x, 51x (around 2^9), 59x/60x (around the count), 99x
+	d1, d2 := hi[0], hi[1]
+	d3 := nondetByte()
+	verifAssume(verifAnd(d3 >= '0', d3 <= '9'))
+	idx := int(d1-'0')*100 + int(d2-'0')*10 + int(d3-'0')
+	body := string([]byte{d1, d2, d3})
+	var root any = l
+	p := "#" + body
+	if nondetIntRange(0, 1) == 1 {
+		root = NewObject("rows", l)
+		p = ".rows#" + body
+	}
+	final := nondetIntRange(0, 1) == 0
+	if !final {
+		p += ".k"
+	}
+	ty, tp := hTypeOfTFAny(root, p)
+	got, gp := hGetTFAny(root, p)
+	verifAssert(!tp, "TypeOfTF never panics")
+	if idx < 600 {
+		if final {
+			verifAssert(ty == TypeObject && !gp && got == any(inner), "GetTF returns what segment-by-segment Get returns (identical container / equal scalar)")
+		} else {
+			gi, isInt := got.(int)
+			verifAssert(ty == TypeInt && !gp && isInt && gi == x, "GetTF returns what segment-by-segment Get returns (identical container / equal scalar)")
+		}
+	} else {
+		verifAssert(ty == TypeUndefined && gp, "an index >= count is Undefined / GetTF panics")
+	}
+	verifReach("end")
+}
